@@ -17,16 +17,17 @@ pub fn run(ctx: &Ctx) -> Outcome {
     let mut patterns = sp.patterns;
     patterns.extend(un.patterns);
     let texts = spaces::texts_c01(ctx.tier.pick(3, 4));
-    let cfg = SweepCfg { prop: "C10", backtrack_limit: Some(20_000), step_cap: Some(3_000_000), shadow: false };
+    let texts_up: Vec<String> = { let mut v: Vec<String> = texts.iter().map(|t| t.to_uppercase()).collect(); v.sort(); v.dedup(); v };
+    let cfg = SweepCfg { prop: "C10", backtrack_limit: Some(20_000), step_cap: Some(3_000_000), shadow: false, casei_every: 2 };
     let acc = sweep(&cfg, &patterns, |c: &Case<'_>, acc| {
         let re = c.re;
         let mut nontrivial = false;
         // second, independent statement of "the matches": the iteration model driven by the
         // reference matcher (a change that moves find_iter and split together is invisible to
         // the comparison of the two)
-        let rfm = if diff::default_exclude(c.node).is_none() && !c.node.has_f1() && !c.node.has_keepout_in_lookbehind() { refm::compile(c.node) } else { None };
+        let rfm = if c.casei { None } else if diff::default_exclude(c.node).is_none() && !c.node.has_f1() && !c.node.has_keepout_in_lookbehind() { refm::compile(c.node) } else { None };
         let fj_listed = ctx.known.listed("C15", "FJ");
-        for t in &texts {
+        for t in if c.casei { &texts_up } else { &texts } {
             if let Some((r, ng)) = &rfm {
                 let bound = t.chars().count() + 4;
                 if let Some(ms) = refm::iterate(r, *ng, t, refm::BUDGET, bound) {
@@ -145,7 +146,7 @@ pub fn run(ctx: &Ctx) -> Outcome {
     });
     let mut out = Outcome::new(acc);
     out.distinct_nontrivial = out.acc.distinct;
-    out.rule = format!("patterns: [{}] and [{}] (F1-class patterns included: no reference semantics is needed); x all {} texts over {{a,b,c,é,\\n,-}} up to length {}; split = gaps between consecutive find_iter matches, #pieces = #matches + 1, interleaving rebuilds the text byte for byte; splitn(t, n) for n in 0..5; every prefix of next() calls on a fresh iterator; for the patterns with reference semantics split must also equal the gaps between the matches of the reference iteration model. Non-trivial: distinct patterns with an empty match, a multi-byte match or >= 3 pieces on some text.", sp.describe, un.describe, texts.len(), ctx.tier.pick(3, 4));
+    out.rule = format!("patterns: [{}] and [{}] (F1-class patterns included: no reference semantics is needed); x all {} texts over {{a,b,c,é,\\n,-}} up to length {}; split = gaps between consecutive find_iter matches, #pieces = #matches + 1, interleaving rebuilds the text byte for byte; splitn(t, n) for n in 0..5; every prefix of next() calls on a fresh iterator; every second pattern is also built with RegexBuilder::case_insensitive(true) and run on the upper-cased texts; for the patterns with reference semantics split must also equal the gaps between the matches of the reference iteration model. Non-trivial: distinct patterns with an empty match, a multi-byte match or >= 3 pieces on some text.", sp.describe, un.describe, texts.len(), ctx.tier.pick(3, 4));
     out.assumptions = vec!["find_iter itself is judged by C08; sequences with overlapping matches (finding FK) have no partition and are skipped".into()];
     let (vm, wr) = (out.acc.get("nontrivial:vm"), out.acc.get("nontrivial:wrapped"));
     out.extra = json!({"nontrivial_patterns": {"vm": vm, "wrapped": wr}});
